@@ -136,6 +136,55 @@ theorem shape_curveIsOnCurve : Shape.curveIsOnCurve = [
   " -> return *y2 == *x3"
 ] := rfl
 
+/-- bn_curve.go: hashToG1 is what `Model/Bls14Verify.lean` / `Bls14G1.lean` transcribes. -/
+theorem shape_hashToG1 : Shape.hashToG1 = [
+  "do &bn_curve.G1{}.HashToPoint([]byte($0))",
+  "return &bn_curve.G1{}"
+] := rfl
+
+/-- bn_curve.go: package-level variables hashToG1 touches (must stay empty: no cache, no state) is what `Model/Bls14Verify.lean` / `Bls14G1.lean` transcribes. -/
+theorem shape_hashToG1State : Shape.hashToG1State = [] := rfl
+
+/-- bn_curve.go: callees of hashToG1 is what `Model/Bls14Verify.lean` / `Bls14G1.lean` transcribes. -/
+theorem shape_hashToG1Calls : Shape.hashToG1Calls = [
+  ".HashToPoint"
+] := rfl
+
+/-- bn256.go: package-level variables G1.HashToPoint touches is what `Model/Bls14Verify.lean` / `Bls14G1.lean` transcribes. -/
+theorem shape_hashToPointState : Shape.hashToPointState = [] := rfl
+
+/-- bn256.go: callees of G1.HashToPoint is what `Model/Bls14Verify.lean` / `Bls14G1.lean` transcribes. -/
+theorem shape_hashToPointCalls : Shape.hashToPointCalls = [
+  ".Bytes",
+  ".IsValid",
+  ".Set",
+  ".Unmarshal",
+  "copy",
+  "errors.New",
+  "hashToCurvePoint",
+  "len",
+  "make",
+  "montEncode",
+  "newGFp"
+] := rfl
+
+/-- bn256.go: package-level variables hashToCurvePoint touches (only the modulus) is what `Model/Bls14Verify.lean` / `Bls14G1.lean` transcribes. -/
+theorem shape_hashToCurvePointState : Shape.hashToCurvePointState = [
+  "P"
+] := rfl
+
+/-- bn256.go: callees of hashToCurvePoint is what `Model/Bls14Verify.lean` / `Bls14G1.lean` transcribes. -/
+theorem shape_hashToCurvePointCalls : Shape.hashToCurvePointCalls = [
+  ".Add",
+  ".Mod",
+  ".ModSqrt",
+  ".Mul",
+  ".SetBytes",
+  ".SetInt64",
+  "big.NewInt",
+  "sha256.Sum256"
+] := rfl
+
 /-- The constants are mutually consistent and are the ones the byte-level proofs rely on:
     `p2` spells `P`, `P ≡ 3 (mod 4)` (square roots by one exponentiation), `P` fits in
     `numBytes` bytes but `2P` does not (so `x + p` is the only alias), `Order < P`. -/
